@@ -89,6 +89,7 @@ type conn struct {
 	mu           sync.Mutex // guards the following
 	closeNotifyc chan struct{}
 	clientGone   bool
+	done         bool // serve has returned
 }
 
 func (c *conn) closeNotify() <-chan struct{} {
@@ -96,6 +97,12 @@ func (c *conn) closeNotify() <-chan struct{} {
 	defer c.mu.Unlock()
 	if c.closeNotifyc == nil {
 		c.closeNotifyc = make(chan struct{})
+		if c.done {
+			// The connection is already gone, nothing is left to watch.
+			close(c.closeNotifyc)
+			c.clientGone = true
+			return c.closeNotifyc
+		}
 
 		if msc, isMulti := c.rwc.(MultistreamConn); isMulti {
 			// MultistreamConn provides it's own error handler
@@ -134,6 +141,21 @@ func (c *conn) notifyClientGone() {
 		close(c.closeNotifyc) // unblock readers
 		c.clientGone = true
 	}
+}
+
+// finish marks the connection as terminated and fires a pending CloseNotify.
+// It runs after the transport was closed, when serve returns.
+func (c *conn) finish() {
+	c.mu.Lock()
+	c.done = true
+	c.mu.Unlock()
+	c.sr.Lock()
+	if pr, ok := c.sr.r.(*io.PipeReader); ok {
+		pr.Close() // unblocks a copier waiting for a reader that is gone
+	}
+	c.sr.pr, c.sr.pipeCopyF = nil, nil // a switch that never started has nothing to copy
+	c.sr.Unlock()
+	c.notifyClientGone()
 }
 
 // Create new connection from rwc.
@@ -184,6 +206,7 @@ func (c *conn) serve() {
 				c.rwc.RemoteAddr().String(), err, buf)
 		}
 		c.rwc.Close()
+		c.finish()
 	}()
 	if tlsConn, ok := c.rwc.(*tls.Conn); ok {
 		if err := tlsConn.Handshake(); err != nil {
